@@ -49,7 +49,9 @@ CONSTANTS
   MaxLen,     \* cells have 1..MaxLen atoms
   NSpecies,   \* species 1..NSpecies
   WithMoments, \* BOOLEAN: also explore cells carrying magnetic moments
-  Tasks       \* subset of {"pipeline", "convert"} explored by the model
+  Tasks,      \* subset of {"pipeline", "convert"} explored by the model
+  Unpermutes  \* interfaces for which create_FORCE_SETS undoes the writer's grouping of the atoms
+              \* ({} on the present code; see fixes/c17-advisory-unchecked-grouping.md)
 
 AllCalcs == {"abacus", "abinit", "aims", "castep", "cp2k", "crystal", "dftbp", "elk",
              "fleur", "lammps", "pwmat", "qe", "siesta", "turbomole", "vasp", "wien2k"}
@@ -258,7 +260,9 @@ Agree ==
           ELSE IF Trait[calc].points /\ ~(agrees /\ agrees0)
             THEN [status |-> "refused"]
             ELSE [status |-> "built",
-                  forces |-> [k \in 1..n |-> outp[k].force - (IF mode.fz THEN resid[k].force ELSE 0)]]
+                  forces |-> [k \in 1..n |->
+                     LET j == IF calc \in Unpermutes THEN CHOOSE i \in 1..n : order[i] = k ELSE k   \* file line used for atom k
+                     IN outp[j].force - (IF mode.fz THEN resid[j].force ELSE 0)]]
   /\ pc' = "done"
   /\ UNCHANGED <<calc, cell, phase, order, file, back, outp, aux>>
 
@@ -337,7 +341,8 @@ InvConvertible == CDone => (result.status = "converted" <=> ~Trait[calc2].needsi
 (* what the property does NOT promise: a grouping format whose output carries no positions  *)
 (* pairs the forces of an interleaved supercell with the wrong atoms, silently             *)
 Mispaired == PDone /\ result.status = "built" /\ ~ReqForcesPaired(cell, result)
-InvMispairedOnlyUnchecked == Mispaired => (Trait[calc].groups /\ ~Trait[calc].points /\ ~IsIdentityOrder(cell, back))
+InvMispairedOnlyUnchecked ==
+  Mispaired => (Trait[calc].groups /\ ~Trait[calc].points /\ ~IsIdentityOrder(cell, back) /\ calc \notin Unpermutes)
 (* the refusal is exactly the interleaved case *)
 InvRefusedIffReordered ==
   (PDone /\ Trait[calc].points) => (result.status = "refused" <=> ~IsIdentityOrder(cell, back))
